@@ -1,8 +1,10 @@
 # C10: compressed size is bounded and repetition is actually exploited.
 from lzcommon import (LZCheckMixin, PropertyCheck, Case, compress_inputs, parse_compress_out, parse_hex, hexb, periodic,
-                      rand_bytes, shrink_bytes, ceil_div, spread_heavy, structured_input)
+                      rand_bytes, shrink_bytes, ceil_div, spread_heavy, structured_input, long_compressible_inputs)
 
 FORMATS = {"lz10c": (4, 2, 18), "lz13c": (8, 4, 4096)}     # header, bytes per reference, maximum match length
+FORMATS["lz10f"] = FORMATS["lz10c"]                        # the same through the enum CompressionFormat
+FORMATS["lz13f"] = FORMATS["lz13c"]
 
 
 def smallest_period(x):
@@ -23,14 +25,14 @@ def smallest_period(x):
 
 def expansion_bound(kind, n):
     hdr = FORMATS[kind][0]
-    if kind == "lz13c" and (n == 0 or n > 0xFFFFFF):
+    if kind in ("lz13c", "lz13f") and (n == 0 or n > 0xFFFFFF):
         hdr = 12                                    # extended LZ11 size form
     return hdr + n + ceil_div(n, 8)
 
 
 def periodic_bound(kind, n, p):
     hdr, r, L = FORMATS[kind]
-    if kind == "lz13c" and (n == 0 or n > 0xFFFFFF):
+    if kind in ("lz13c", "lz13f") and (n == 0 or n > 0xFFFFFF):
         hdr = 12
     refs = ceil_div(max(n - p, 0), L) + 1
     return hdr + (p + 2) + r * refs + ceil_div((p + 2) + refs, 8)
@@ -38,29 +40,34 @@ def periodic_bound(kind, n, p):
 
 class C10(LZCheckMixin, PropertyCheck):
     pid = "C10"
+    source_tables = ["LZ"]   # tables / constants regenerated from /repo's source (gen/srctables.py)
     release_too = False
     rule = ("streams: periods p (quick: 64 sampled incl. 1,2,3,17,18,19,4094,4095,4096; thorough: all 1..4096) x 3 pattern contents "
             "(random bytes, random bits, one odd byte) x 4 total lengths (just above p, around p + k*L, several periods), through both "
-            "compressors; plus the structured inputs of C08/C09 for the expansion bound. Inputs <= 6 KiB are also compared with the "
-            "extracted model. Non-trivial = smallest period <= 4096 and at least two periods long; distinct = distinct (format, input).")
+            "compressors; plus the structured inputs of C08/C09 for the expansion bound and repeats continuing beyond 65808 bytes. "
+            "Inputs <= 6 KiB are also compared with the extracted model (thorough: for the edge periods and every fifth period). Non-trivial = smallest period <= 4096 and at least two periods long; distinct = distinct (format, input).")
     assumptions = ["A-std: Vec, slices and integer casts behave as documented"]
 
     def generate(self, rng, tier):
         cases = []
 
-        def add(kind, data, stream):
-            if len(data) <= 6000:
-                flag = "1" if kind == "lz10c" or len(data) > 1200 else "2"
+        def add(kind, data, stream, model=True):
+            if len(data) <= 6000 and model:
+                flag = "1" if kind in ("lz10c", "lz10f") or len(data) > 1200 else "2"
             else:
                 flag = "0"
             cases.append(Case("%s %s %s" % (kind, flag, hexb(data)), stream))
 
+        edge = [1, 2, 3, 4, 5, 7, 8, 9, 15, 16, 17, 18, 19, 20, 35, 36, 37, 255, 256, 257, 271, 272, 273, 274,
+                1000, 2047, 2048, 4000, 4093, 4094, 4095, 4096]
         if tier == "quick":
-            ps = sorted(set([1, 2, 3, 4, 5, 7, 8, 9, 15, 16, 17, 18, 19, 20, 35, 36, 37, 255, 256, 257, 271, 272, 273, 274,
-                             1000, 2047, 2048, 4000, 4093, 4094, 4095, 4096] + [rng.randint(1, 4096) for _ in range(32)]))
+            ps = sorted(set(edge + [rng.randint(1, 4096) for _ in range(32)]))
         else:
             ps = range(1, 4097)
         for p in ps:
+            # thorough: every period goes through the implementation and the inequalities; the (slow) list model is
+            # run for the edge periods and every fifth period (the full sweep through the model took 15 min)
+            with_model = tier == "quick" or p in edge or p % 5 == 0
             pats = [rand_bytes(rng, p), rand_bytes(rng, p, 2), b"a" * (p - 1) + b"b"]
             for ci, pat in enumerate(pats):
                 lens = [p + 1 + rng.randint(0, 20), p + 18 * rng.randint(1, 40) + rng.randint(0, 2),
@@ -68,15 +75,23 @@ class C10(LZCheckMixin, PropertyCheck):
                 for n in lens:
                     data = periodic(pat, n)
                     for kind in ("lz10c", "lz13c"):
-                        add(kind, data, "periodic-%s" % ("bytes", "bits", "odd-byte")[ci])
+                        add(kind, data, "periodic-%s" % ("bytes", "bits", "odd-byte")[ci], with_model)
         nst = 150 if tier == "quick" else 1500
         for _ in range(nst):
             name, data = structured_input(rng, rng.choice([40, 300, 1500, 6000, 20000]))
             for kind in ("lz10c", "lz13c"):
                 add(kind, data, "expansion-" + name)
+        for _ in range(30 if tier == "quick" else 300):
+            name, data = structured_input(rng, rng.choice([40, 300, 1500, 6000]))
+            for kind in ("lz10f", "lz13f"):
+                add(kind, data, "format-enum-" + name)
         for n in range(0, 70):
             for kind in ("lz10c", "lz13c"):
                 add(kind, bytes((i * 37 + 11) % 251 for i in range(n)), "expansion-all-literals")
+        # repeats that continue beyond the longest LZ11 match (65808 bytes), 2^17, ~140000: implementation + inequalities only
+        for name, data, _ in long_compressible_inputs(rng, tier):
+            for kind in ("lz10c", "lz13c"):
+                add(kind, data, "long-compressible-" + name)
         return spread_heavy(cases, weight=lambda c: 0 if c.line.split(" ")[1] == "0" else len(c.line))
 
     def nontrivial(self, case, impl_out):
@@ -114,8 +129,7 @@ TB = ("Trusted: Coq 8.16.1 kernel (vm_compute, no native_compute), no axioms (Pr
       "ExtrOcamlBasic extraction + hand-written OCaml driver, the Rust harness and Python generators/oracles. ")
 
 MANIFEST = dict(
-    text="(filled in below)",
-    note=TB,
-    technique="Coq proof (token accounting of the emission loop; longest-match lemma for periodic inputs) + extracted-model differential check "
-              "+ the size inequalities evaluated on the implementation's output for swept periods, contents and lengths",
-    ref="DESIGN.md section 4 (C10)")
+    text="Theorems (Coq 8.16, closed under the global context) about the compressor models of C08/C09: for EVERY input |compress10 x| <= 4 + n + ceil(n/8) and |compress13 x| <= hdr + n + ceil(n/8) (hdr = 8 for a non-empty input below 2^24, 12 with the extended size form); for EVERY input with a period p in 1..4096 - all contents, all lengths - the output is at most header + (p+2) literals + (ceil((n-p)/L)+1) references of r bytes + one flag byte per eight tokens, (r,L) = (2,18) for LZ10 and (4,4096) for LZ13; the carrying lemma shows that from position max(p,2) on the match search reports the whole look-ahead, i.e. the full 4096-byte window and the full match length are used. The models are tied to /repo on every run (extracted model vs real library byte-for-byte on inputs <= 6 KiB) and the two inequalities are evaluated on the implementation's output for swept periods (quick: 64 periods incl. all edges; thorough: all 1..4096) x 3 contents x 4 lengths, the structured inputs of C08/C09 and repeats continuing to 140000 bytes, through the struct and the enum entry points.",
+    note=TB + 'Modelled, not verified (A-std): Vec, slices, integer casts. The bound of the property has slack (two literals, one reference): changes of the compressor that stay inside it (e.g. literal decision <= 3, search from displacement 3) do not violate the property and are reported through the byte-for-byte correspondence only - see notes/lz.md, 8 mutations.',
+    technique="Coq proof (token accounting of the emission loop; longest-match lemma for periodic inputs) + extracted-model differential check + the size inequalities evaluated on the implementation's output for swept periods, contents and lengths",
+    ref='DESIGN.md section 4 (C10); notes/lz.md')
